@@ -493,14 +493,27 @@ def state_writes(_tree=None) -> list[tuple[str, list[str]]]:
     return out
 
 
+def _exits(loop) -> str:
+    """break / continue / return statements inside a loop body (they would skip volumes or batches)"""
+    found = []
+    for st in loop.body:
+        for n in ast.walk(st):
+            if isinstance(n, (ast.Break, ast.Continue, ast.Return)):
+                found.append(f"{type(n).__name__.lower()}@+{n.lineno - loop.lineno}")
+    return "none" if not found else " ".join(found)
+
+
 def caller_facts(_tree=None) -> list[str]:
     from ..gen import REPO
 
     out = []
+    rv = find_function(parse_file(REPO / M), "MRIModelEngine.reconstruct_volumes")
+    out.append("reconstruct_volumes: early exits in the loop over the batches: " + _exits(_loop(rv)))
     ev = find_function(parse_file(REPO / M), "MRIModelEngine.evaluate")
     for st in ast.walk(ev):
         if isinstance(st, ast.For) and "reconstruct_volumes" in ast.unparse(st.iter):
             out.append(f"evaluate: for {ast.unparse(st.target)} in {ast.unparse(st.iter)}")
+            out.append("evaluate: early exits in the loop over the volumes: " + _exits(st))
             for s in st.body:
                 if isinstance(s, ast.Assign) and ast.unparse(s.value) == "output":
                     out.append(f"evaluate: {ast.unparse(s.targets[0])}=output")
@@ -512,6 +525,7 @@ def caller_facts(_tree=None) -> list[str]:
     for st in ast.walk(vl):
         if isinstance(st, ast.For) and "validation_datasets" in ast.unparse(st.iter):
             out.append(f"validation_loop: for {ast.unparse(st.target)} in {ast.unparse(st.iter)}")
+            out.append("validation_loop: early exits in the loop over the datasets: " + _exits(st))
             for s in st.body:
                 if isinstance(s, ast.Assign) and ast.unparse(s.targets[0]) in ("curr_batch_sampler", "curr_data_loader"):
                     out.append(f"validation_loop: {ast.unparse(s.targets[0])}={ast.unparse(s.value)}")
